@@ -4,9 +4,9 @@ CONSTANTS
   PreScopes = {"_SB_"}
   MaxProd = 3  MaxTables = 1  MaxDepth = 1
   Decls = {}
-  Forms = {"abs"}
+  Forms = {}
   Values = {}
-  Stmts = {"call", "calloplast", "store", "notify", "sync", "match"}  MaxStmts = 3
+  Stmts = {"call", "calloplast", "store"}  MaxStmts = 3
   Devs = {"IndexFieldNamed", "AliasKeepsSourceName", "ExternalIsObject", "CreateFieldNotNamed", "PackageMethodRefInvoked", "VarPackageCountByte", "MatchOperatorBytes", "LoadTableSevenOperands", "IfBodyFlattened", "RelPathInTerm", "ValueNamesFromFinalPlace", "EmptyBufferInDeferred"}
   Excluded = {"D1", "D1b", "D2", "D2c", "D3", "D5", "D6", "D7", "D9", "IndexFieldNamed", "AliasKeepsSourceName", "ExternalIsObject", "CreateFieldNotNamed", "PackageMethodRefInvoked", "VarPackageCountByte", "MatchOperatorBytes", "LoadTableSevenOperands", "IfBodyFlattened", "RelPathInTerm", "ValueNamesFromFinalPlace", "EmptyBufferInDeferred", "InvisibleCallee", "MethodAsRef", "HiddenNameInDeferred", "BankFieldUnitInDeferred"}
   Emit = FALSE  Bug = ""
